@@ -148,6 +148,7 @@ def run(ctx):
     r5_who(chk, fx)
     r6_rpc(chk, fx)
     r7_uris(chk, fx)
+    r7_url_query_arguments(chk, fx)
     r8_builders_start_unset(chk, fx)
 
 
@@ -977,6 +978,28 @@ def r7_uris(chk, fx):
 
 
 # ---------------------------------------------------------------------------------------------
+def r7_url_query_arguments(chk, fx):
+    """The :url capability URI carries its schemes in the `scheme=` argument of a query that may hold further arguments
+    (`?scheme=ftp,file&max-size=65536`).  Necessary for reading them off: the query is separated at '&' before `scheme=` is looked for —
+    a parser that strips a `scheme=` prefix from the whole query glues the rest onto the last scheme (which then matches no URL: requests
+    the server permits are refused)."""
+    fs = "<netconf::capabilities::Capability as std::str::FromStr>::from_str"
+    bodies = [b for n, b in sorted(fx.mir.items()) if n == fs or n.startswith(fs + "::{closure")]
+    if not bodies:
+        raise F.AnchorLost("Capability::from_str not found")
+    seps = []
+    for b in bodies:
+        for c in b.calls():
+            if c.macro or not c.is_fn("str::<impl str>::split", "str::<impl str>::split_terminator", "str::<impl str>::rsplit", "str::<impl str>::split_once",
+                                      "str::<impl str>::splitn", "str::<impl str>::split_inclusive"):
+                continue
+            for a in c.args[1:]:
+                if a.get("c") == "const" and "&" in str(a.get("v", "")) and (a.get("ty") in ("char", "&str") or "str" in str(a.get("ty"))):
+                    seps.append(c)
+    chk.instance("C09/R7", "the arguments of the :url capability's query are separated at '&' (%d split site(s))" % len(seps), fs, seps[0].loc() if seps else None,
+                 holds=bool(seps), key="C09/R7 url-capability query-not-separated")
+
+
 def run_thorough(ctx):
     """Compile-fail witnesses (type-level remainder of C09/R5): rustdoc compile_fail tests with error codes, plus compiling twins."""
     import os
